@@ -49,6 +49,7 @@ type Frame struct {
 	bounded  int // unroll bound for loops without invariant (0 = none)
 	inlineResults []Val
 	nonNil   map[ssa.Value]*ssa.BasicBlock
+	frame    *frameSpec
 }
 
 type deferred struct {
@@ -551,7 +552,7 @@ func (f *Frame) instr(in ssa.Instruction, st *state) {
 			s := f.val(x.X).T
 			f.check(st, "bounds", fmt.Sprintf("(and (<= 0 %s) (< %s (sl.len %s)))", idx, idx, s), in, "index out of range")
 			arr, sort := u.elemArr(t.Elem())
-			f.vals[x] = Val{Typ: x.Type(), Loc: &Loc{Arr: arr, Sort: sort, Key: "(sl.base " + s + ")", Key2: "(+ (sl.off " + s + ") " + idx + ")", Typ: t.Elem()}}
+			f.vals[x] = Val{Typ: x.Type(), Loc: &Loc{Arr: arr, Sort: sort, Key: "(sl.base " + s + ")", Key2: "(sl.at " + s + " " + idx + ")", Typ: t.Elem()}}
 		case *types.Pointer: // *[N]T
 			at := t.Elem().Underlying().(*types.Array)
 			f.check(st, "bounds", fmt.Sprintf("(and (<= 0 %s) (< %s %d))", idx, idx, at.Len()), in, "index out of range")
@@ -619,8 +620,8 @@ func (f *Frame) instr(in ssa.Instruction, st *state) {
 			f.check(st, "bounds", fmt.Sprintf("(and (<= 0 %s) (< %s %d))", idx, idx, t.Len()), in, "index out of range")
 			f.setDef(x, sel(v.T, idx))
 		case *types.Basic: // string
-			f.check(st, "bounds", fmt.Sprintf("(and (<= 0 %s) (< %s (str.len %s)))", idx, idx, v.T), in, "string index out of range")
-			f.setDef(x, app("str.at", v.T, idx))
+			f.check(st, "bounds", fmt.Sprintf("(and (<= 0 %s) (< %s (gs.len %s)))", idx, idx, v.T), in, "string index out of range")
+			f.setDef(x, app("gs.at", v.T, idx))
 			u.emit(fmt.Sprintf("(assert (and (<= 0 %s) (<= %s 255)))", f.vals[x].T, f.vals[x].T))
 		default:
 			f.havocVal(x, "Index on "+x.X.Type().String())
@@ -632,6 +633,7 @@ func (f *Frame) instr(in ssa.Instruction, st *state) {
 		mt := x.Map.Type().Underlying().(*types.Map)
 		f.check(st, "nilmap", "(not (= "+m+" 0))", in, "assignment to entry in nil map")
 		dom, val := u.mapArrs(mt)
+		f.frameCheckRef(st, x, dom, m, "map update")
 		k, v := f.val(x.Key).T, f.val(x.Value).T
 		d := u.hget(st.heap, dom)
 		vv := u.hget(st.heap, val)
@@ -788,6 +790,9 @@ func (f *Frame) storeInstr(x *ssa.Store, st *state) {
 		u.note("store of interior pointer in " + f.fname)
 		v.T = u.fresh("locval", "Int")
 	}
+	if !l.Local {
+		f.frameCheckRef(st, x, l.Arr, l.Key, "store")
+	}
 	if l.Arr == "" {
 		f.nilCheck(st, x.Addr, x)
 		u.storeStruct(st.heap, l.Key, l.Typ, v.T)
@@ -879,17 +884,17 @@ func (f *Frame) binop(x *ssa.BinOp, st *state) {
 	case "Str":
 		switch x.Op {
 		case token.ADD:
-			t := app("str.cat", a.T, b.T)
+			t := app("gs.cat", a.T, b.T)
 			f.setDef(x, t)
-			u.emit(fmt.Sprintf("(assert (= (str.len %s) (+ (str.len %s) (str.len %s))))", f.vals[x].T, a.T, b.T))
+			u.emit(fmt.Sprintf("(assert (= (gs.len %s) (+ (gs.len %s) (gs.len %s))))", f.vals[x].T, a.T, b.T))
 		case token.LSS:
-			f.setDef(x, app("str.lt", a.T, b.T))
+			f.setDef(x, app("gs.lt", a.T, b.T))
 		case token.GTR:
-			f.setDef(x, app("str.lt", b.T, a.T))
+			f.setDef(x, app("gs.lt", b.T, a.T))
 		case token.LEQ:
-			f.setDef(x, not(app("str.lt", b.T, a.T)))
+			f.setDef(x, not(app("gs.lt", b.T, a.T)))
 		case token.GEQ:
-			f.setDef(x, not(app("str.lt", a.T, b.T)))
+			f.setDef(x, not(app("gs.lt", a.T, b.T)))
 		default:
 			f.havocVal(x, "string binop")
 		}
@@ -1002,27 +1007,27 @@ func (f *Frame) convert(x *ssa.Convert, st *state) {
 		if b, ok := el.Underlying().(*types.Basic); ok && b.Kind() == types.Uint8 {
 			arr, _ := u.elemArr(el)
 			a := u.hget(st.heap, arr)
-			fn := u.D.Fun("str.bytes", []string{"Str"}, "(Array Int Int)")
+			fn := u.D.Fun("gs.bytes", []string{"Str"}, "(Array Int Int)")
 			u.hset(st.heap, arr, sto(a, r, app(fn, v.T)))
-			u.D.axiom("(forall ((s Str) (i Int)) (! (= (select (str.bytes s) i) (str.at s i)) :pattern ((select (str.bytes s) i))))")
-			f.setDef(x, fmt.Sprintf("(mk-slice %s 0 (str.len %s))", r, v.T))
+			u.D.axiom("(forall ((s Str) (i Int)) (! (= (select (gs.bytes s) i) (gs.at s i)) :pattern ((select (gs.bytes s) i))))")
+			f.setDef(x, fmt.Sprintf("(mk-slice %s 0 (gs.len %s))", r, v.T))
 		} else {
 			ln := u.fresh("runes.len", "Int")
-			u.emit(fmt.Sprintf("(assert (and (<= 0 %s) (<= %s (str.len %s))))", ln, ln, v.T))
+			u.emit(fmt.Sprintf("(assert (and (<= 0 %s) (<= %s (gs.len %s))))", ln, ln, v.T))
 			f.setDef(x, fmt.Sprintf("(mk-slice %s 0 %s)", r, ln))
 		}
 	case fs == "Slice" && ts == "Str": // string(bytes)
 		el := from.(*types.Slice).Elem()
-		res := u.fresh("str.of", "Str")
+		res := u.fresh("gs.of", "Str")
 		if b, ok := el.Underlying().(*types.Basic); ok && b.Kind() == types.Uint8 {
-			u.emit(fmt.Sprintf("(assert (= (str.len %s) (sl.len %s)))", res, v.T))
+			u.emit(fmt.Sprintf("(assert (= (gs.len %s) (sl.len %s)))", res, v.T))
 			arr, _ := u.elemArr(el)
 			a := u.hget(st.heap, arr)
-			u.emit(fmt.Sprintf("(assert (forall ((i Int)) (! (=> (and (<= 0 i) (< i (sl.len %s))) (= (str.at %s i) (select (select %s (sl.base %s)) (+ (sl.off %s) i)))) :pattern ((str.at %s i)))))", v.T, res, a, v.T, v.T, res))
+			u.emit(fmt.Sprintf("(assert (forall ((i Int)) (! (=> (and (<= 0 i) (< i (sl.len %s))) (= (gs.at %s i) (select (select %s (sl.base %s)) (sl.at %s i)))) :pattern ((gs.at %s i)))))", v.T, res, a, v.T, v.T, res))
 		}
 		f.set(x, res)
 	case fs == "Int" && ts == "Str": // string(rune)
-		fn := u.D.Fun("str.ofrune", []string{"Int"}, "Str")
+		fn := u.D.Fun("gs.ofrune", []string{"Int"}, "Str")
 		f.setDef(x, app(fn, v.T))
 	case fs == "Int" && ts == "Float":
 		fn := u.D.Fun("float.ofint", []string{"Int"}, "Float")
@@ -1097,8 +1102,8 @@ func (f *Frame) lookup(x *ssa.Lookup, st *state) {
 	case *types.Basic:
 		s := f.val(x.X).T
 		idx := f.val(x.Index).T
-		f.check(st, "bounds", fmt.Sprintf("(and (<= 0 %s) (< %s (str.len %s)))", idx, idx, s), x, "string index out of range")
-		f.setDef(x, app("str.at", s, idx))
+		f.check(st, "bounds", fmt.Sprintf("(and (<= 0 %s) (< %s (gs.len %s)))", idx, idx, s), x, "string index out of range")
+		f.setDef(x, app("gs.at", s, idx))
 		u.emit(fmt.Sprintf("(assert (and (<= 0 %s) (<= %s 255)))", f.vals[x].T, f.vals[x].T))
 	default:
 		f.havocVal(x, "lookup")
@@ -1128,15 +1133,15 @@ func (f *Frame) sliceOp(x *ssa.Slice, st *state) {
 		nc := u.sliceCap(f.vals[x].T)
 		u.emit(fmt.Sprintf("(assert (= %s (- %s %s)))", nc, capT, lo))
 	case *types.Basic:
-		hi := "(str.len " + v.T + ")"
+		hi := "(gs.len " + v.T + ")"
 		if x.High != nil {
 			hi = f.val(x.High).T
 		}
-		f.check(st, "bounds", fmt.Sprintf("(and (<= 0 %s) (<= %s %s) (<= %s (str.len %s)))", lo, lo, hi, hi, v.T), x, "slice bounds out of range")
-		f.setDef(x, app("str.sub", v.T, lo, hi))
+		f.check(st, "bounds", fmt.Sprintf("(and (<= 0 %s) (<= %s %s) (<= %s (gs.len %s)))", lo, lo, hi, hi, v.T), x, "slice bounds out of range")
+		f.setDef(x, app("gs.sub", v.T, lo, hi))
 		r := f.vals[x].T
-		u.emit(fmt.Sprintf("(assert (= (str.len %s) (- %s %s)))", r, hi, lo))
-		u.emit(fmt.Sprintf("(assert (forall ((i Int)) (! (=> (and (<= 0 i) (< i (- %s %s))) (= (str.at %s i) (str.at %s (+ %s i)))) :pattern ((str.at %s i)))))", hi, lo, r, v.T, lo, r))
+		u.emit(fmt.Sprintf("(assert (= (gs.len %s) (- %s %s)))", r, hi, lo))
+		u.emit(fmt.Sprintf("(assert (forall ((i Int)) (! (=> (and (<= 0 i) (< i (- %s %s))) (= (gs.at %s i) (gs.at %s (+ %s i)))) :pattern ((gs.at %s i)))))", hi, lo, r, v.T, lo, r))
 	case *types.Pointer: // *[N]T
 		at := t.Elem().Underlying().(*types.Array)
 		hi := fmt.Sprint(at.Len())
@@ -1176,7 +1181,7 @@ func (f *Frame) next(x *ssa.Next, st *state) {
 		f.vals[x] = Val{Typ: x.Type(), Tup: []Val{{T: ok, Typ: tup.At(0).Type()}, {T: k, Typ: tup.At(1).Type()}, {T: v, Typ: tup.At(2).Type()}}}
 		if rng != nil {
 			s := f.val(rng.X).T
-			u.emit(fmt.Sprintf("(assert (=> %s (and (<= 0 %s) (< %s (str.len %s)))))", ok, k, k, s))
+			u.emit(fmt.Sprintf("(assert (=> %s (and (<= 0 %s) (< %s (gs.len %s)))))", ok, k, k, s))
 		}
 		return
 	}
